@@ -15,6 +15,7 @@ import (
 )
 
 type variant struct {
+	patchFile  string // seeded change: a unified diff applied to a scratch copy of the files it touches
 	Property   string `json:"property"`
 	Name       string `json:"name"`
 	File       string `json:"file"`
@@ -54,6 +55,16 @@ func (c *Check) runSelfTests() {
 			mine = append(mine, v)
 		}
 	}
+	// the archived seeded changes of this property (confirmed breaking changes produced by
+	// independent sub-agents) are replayed the same way
+	if dirs, err := filepath.Glob(filepath.Join(c.VerifDir, "seeded", c.Prop+"-s*")); err == nil {
+		for _, d := range dirs {
+			pf := filepath.Join(d, "patch.diff")
+			if _, err := os.Stat(pf); err == nil {
+				mine = append(mine, variant{Property: c.Prop, Name: "seeded:" + filepath.Base(d), patchFile: pf})
+			}
+		}
+	}
 	results := make([]variantResult, len(mine))
 	var wg sync.WaitGroup
 	sem := make(chan struct{}, 6)
@@ -67,16 +78,26 @@ func (c *Check) runSelfTests() {
 			if v.Preserving {
 				r.Kind = "behaviour-preserving"
 			}
-			path := filepath.Join(c.P.RepoDir, v.File)
-			src, err := os.ReadFile(path)
-			n := strings.Count(string(src), v.Old)
-			if err != nil || n == 0 || (n != 1 && !v.ReplaceAll) {
-				r.Outcome = "not-applicable"
-				results[i] = r
-				return
+			var ov map[string]string
+			if v.patchFile != "" {
+				ov = patchOverlay(c.P.RepoDir, v.patchFile)
+				if ov == nil {
+					r.Outcome = "not-applicable"
+					results[i] = r
+					return
+				}
+			} else {
+				path := filepath.Join(c.P.RepoDir, v.File)
+				src, err := os.ReadFile(path)
+				n := strings.Count(string(src), v.Old)
+				if err != nil || n == 0 || (n != 1 && !v.ReplaceAll) {
+					r.Outcome = "not-applicable"
+					results[i] = r
+					return
+				}
+				ov = map[string]string{path: strings.ReplaceAll(string(src), v.Old, v.New)}
 			}
 			r.Applicable = true
-			ov := map[string]string{path: strings.ReplaceAll(string(src), v.Old, v.New)}
 			tmp, err := os.CreateTemp("", "pprofcheck-variant-*.json")
 			if err != nil {
 				r.Outcome = "error"
@@ -124,7 +145,7 @@ func (c *Check) runSelfTests() {
 		"variants":    results,
 		"applicable":  applicable,
 		"as_expected": ok,
-		"note":        "single-edit overlay variants of the current tree; breaking variants must fire with a report naming the expected rule, behaviour-preserving ones must stay silent; evidence only",
+		"note":        "overlay variants of the current tree: canned single edits (selftest/variants.json) and the archived seeded changes of this property (seeded/<id>/patch.diff); breaking variants must fire (canned ones with a report naming the expected rule), behaviour-preserving ones must stay silent; evidence only",
 	}
 	fmt.Printf("  self-test: %d/%d applicable variants behaved as expected\n", ok, applicable)
 	for _, r := range results {
@@ -132,4 +153,52 @@ func (c *Check) runSelfTests() {
 			fmt.Printf("  self-test: variant %s (%s) → %s, NOT as expected\n", r.Name, r.Kind, r.Outcome)
 		}
 	}
+}
+
+// patchOverlay applies a unified diff to a scratch copy of the files it names (outside the
+// repository) and returns the patched contents keyed by their path in the repository;
+// nil when the diff does not apply to the current tree.
+func patchOverlay(repo, patchFile string) map[string]string {
+	b, err := os.ReadFile(patchFile)
+	if err != nil {
+		return nil
+	}
+	var files []string
+	for _, line := range strings.Split(string(b), "\n") {
+		if strings.HasPrefix(line, "+++ b/") {
+			files = append(files, strings.TrimSpace(strings.TrimPrefix(line, "+++ b/")))
+		}
+	}
+	if len(files) == 0 {
+		return nil
+	}
+	tmp, err := os.MkdirTemp("", "pprofcheck-seed-*")
+	if err != nil {
+		return nil
+	}
+	defer os.RemoveAll(tmp)
+	for _, f := range files {
+		src, err := os.ReadFile(filepath.Join(repo, f))
+		if err != nil {
+			continue // a file the change adds
+		}
+		dst := filepath.Join(tmp, f)
+		os.MkdirAll(filepath.Dir(dst), 0o755)
+		if os.WriteFile(dst, src, 0o644) != nil {
+			return nil
+		}
+	}
+	cmd := exec.Command("patch", "-p1", "-s", "-f", "-d", tmp, "-i", patchFile)
+	if err := cmd.Run(); err != nil {
+		return nil
+	}
+	ov := map[string]string{}
+	for _, f := range files {
+		out, err := os.ReadFile(filepath.Join(tmp, f))
+		if err != nil {
+			return nil
+		}
+		ov[filepath.Join(repo, f)] = string(out)
+	}
+	return ov
 }
